@@ -9,10 +9,16 @@
    the cursor hands back are exactly the live rows that satisfy all constraints — the entries of
    that same map — in ascending (descending) key order: the scan window built by Filter never
    hides, repeats or reorders a qualifying row.
+   TREES OF SEVERAL LEVELS (Mast.v, MastProofs, MastLevelProofs): the stored layout — which entry in
+   which node on which level — refines that same sorted list: for every sorted tree, every key and
+   every placement, Insert / Delete of the node-level tree flatten to the list's insert / delete
+   (and count the size), a lookup answers only with the list's entry, and — when entries sit on the
+   level their key's layer names and equal keys have equal layers — finds every entry of the list.
+   Cursor.Backward as written in mast v1.2.33 is refuted on the model (F-C06-2).
    Only [exact lemma] statements followed by Print Assumptions. *)
 From Coq Require Import ZArith List Bool.
-From S3db Require Import Base KeyOrder RowMerge Tree Store KvProto Inst Stmt.
-From S3db.proofs Require Import KeyOrderProofs RowMergeProofs TreeProofs StmtProofs ScanProofs.
+From S3db Require Import Base KeyOrder RowMerge Tree Store KvProto Inst Stmt Mast.
+From S3db.proofs Require Import KeyOrderProofs RowMergeProofs TreeProofs StmtProofs ScanProofs MastProofs MastLevelProofs MastExamples.
 Import ListNotations.
 Open Scope Z_scope.
 
@@ -111,6 +117,46 @@ Proof.
   - split; [reflexivity|]. split; vm_compute; reflexivity.
 Qed.
 
+(* ---- trees of several levels ---- *)
+Section C06_levels.
+Context {V : Type}.
+
+Theorem C06_multilevel_insert_is_map_insert (m m' : mast V) k v : D k -> wf (mast_flat m) ->
+  mast_insert m k v = Some m' ->
+  mast_flat m' = t_insert k v (mast_flat m) /\ wf (mast_flat m') /\
+  m_size m' = (if t_get k (mast_flat m) then m_size m else m_size m + 1).
+Proof. exact (mast_insert_refines m m' k v). Qed.
+
+Theorem C06_multilevel_delete_is_map_delete (m m' : mast V) k : D k -> wf (mast_flat m) ->
+  mast_delete m k = Some m' ->
+  mast_flat m' = t_delete k (mast_flat m) /\ wf (mast_flat m') /\
+  t_get k (mast_flat m) <> None /\ m_size m' = m_size m - 1.
+Proof. exact (mast_delete_refines m m' k). Qed.
+
+Theorem C06_multilevel_lookup_answers_with_the_stored_row (m : mast V) k v : D k -> wf (mast_flat m) ->
+  mast_get m k = Some v -> t_get k (mast_flat m) = Some v.
+Proof. exact (mast_get_sound m k v). Qed.
+
+Theorem C06_multilevel_lookup_finds_every_stored_row (lay : sval -> nat) (n : mt V) h k v :
+  D k -> wf (flat n) -> lvr lay h n -> LC lay k (flat n) ->
+  t_get k (flat n) = Some v -> get (h - Nat.min (lay k) h) k n = Some v.
+Proof. exact (get_complete_root lay n h k v). Qed.
+End C06_levels.
+
+Theorem C06_three_level_tree_example :
+  exists m, build 2 [1; 2; 3; 4; 5; 6; 7; 8] = Some m /\
+    m_height m = 2%nat /\ m_size m = 8 /\
+    mast_flat m = map (fun k => (VInt k, k)) [1; 2; 3; 4; 5; 6; 7; 8] /\
+    wf (mast_flat m) /\
+    lvr (klayer 2) (m_height m) (node_of (m_root m)) /\
+    walk_fwd m = mast_flat m /\
+    mast_get m (VInt 5) = Some 5 /\ mast_get m (VInt 9) = None.
+Proof. exact three_levels. Qed.
+
+Theorem C06_descending_walk_refuted :
+  exists m : mast Z, wf (mast_flat m) /\ snd (walk_back m) = WOk /\ fst (walk_back m) <> rev (mast_flat m).
+Proof. exact backward_scan_refuted. Qed.
+
 Print Assumptions C06_insert.
 Print Assumptions C06_null_key_rejected.
 Print Assumptions C06_update.
@@ -122,3 +168,9 @@ Print Assumptions C06_selected_row_is_map_entry.
 Print Assumptions C06_map_entry_is_selected.
 Print Assumptions C06_select_example.
 Print Assumptions C06_comparison_with_null_selects_nothing.
+Print Assumptions C06_multilevel_insert_is_map_insert.
+Print Assumptions C06_multilevel_delete_is_map_delete.
+Print Assumptions C06_multilevel_lookup_answers_with_the_stored_row.
+Print Assumptions C06_multilevel_lookup_finds_every_stored_row.
+Print Assumptions C06_three_level_tree_example.
+Print Assumptions C06_descending_walk_refuted.
